@@ -793,6 +793,13 @@ func gen(t *rapid.T) Case {
 		{Name: "Query", Fields: []Field{{Name: "alpha", Type: "String"}, {Name: "thing", Type: "Thing", Args: "(id: ID!)"}, {Name: "beta", Type: "[Thing!]!", File: 1}}},
 		{Name: "Thing", Fields: []Field{{Name: "alpha", Type: "String"}, {Name: "gamma", Type: "String"}, {Name: "delta", Type: "Int!", File: 1}, {Name: "beta", Type: "Int"}}},
 	}}
+	if rapid.IntRange(0, 2).Draw(t, "roots") == 0 {
+		// the other root types: mutation resolvers, and subscription resolvers whose value result is a
+		// receive-only channel
+		c.Schema.Types = append(c.Schema.Types,
+			Type{Name: "Mutation", Fields: []Field{{Name: "setAlpha", Type: "String", Args: "(v: String!)"}, {Name: "bump", Type: "Int!", File: 1}}},
+			Type{Name: "Subscription", Fields: []Field{{Name: "ticks", Type: "Int!"}, {Name: "things", Type: "Thing", File: 1}}})
+	}
 	cur := c.Schema
 	nsteps := rapid.IntRange(2, 6).Draw(t, "nsteps")
 	n := 0
